@@ -20,20 +20,20 @@ BUILT = {
  "C03": ("exploration", "Differential testing against an independent implementation of the SAE frame layouts (reference peer + strict decoder) in both roles, both layers, RTS/CTS and BAM, with the peer's legal choices generated (grants, holds refreshed after up to 0.499 s, retransmission requests, latencies, limits, pacing); a symmetric encoder+decoder mistake passes stack-vs-stack tests but fails here.", "5/C03"),
  "C04": ("exploration", "Generated claim configurations (adversarial NAME sets in every order, AAC mix, address layouts, claim instants around the 250 ms veto window, latencies incl. re-entrant) judged by a validity predicate over final states and the bus trace: settled, unique, lowest NAME keeps a contested address, losers cannot-claim or move.", "5/C04"),
  "C05": ("exploration", "Generated stack configurations (CAs in every claim state, ECU-level listeners) with an exhaustive inner sweep over all 256 destination addresses (battery of single and transport frames to unowned ones, single frame + complete transfer to owned ones), a foreign bystander session, broadcasts, and all 8 frame-flag combinations; reference routing table with no-TX / no-state checks.", "5/C05"),
- "C06": ("fault_enumeration", "Every single frame loss and every silence point of either peer, for 110 transfer shapes on both data link layers, enumerated completely per shape (k over all bus frames), with recovery follow-up, per-state time-out oracle (T1 inside a window, T2/T3 otherwise) and cyclic application timers next to the transfer; payload/latency draws by Hypothesis.", "5/C06"),
+ "C06": ("fault_enumeration", "Every single frame loss and every silence point of either peer, for 110 transfer shapes on both data link layers, enumerated completely per shape (k over all bus frames), with recovery follow-up, per-state time-out oracle (T1 inside a window, T2/T3 otherwise) cyclic application timers next to the transfer, and an impatient application that re-sends its newest value as soon as send_pgn accepts (exact-or-nothing per delivery); payload/latency draws by Hypothesis.", "5/C06"),
  "C07": ("exploration", "Grammar-based fuzzing: protocol-aware frame sequences (all control bytes, boundary fields, spoofed sources, gaps up to beyond every timeout) injected while own transfers run, plus reactive injection (answers to the stack's own frames while it is still writing them); liveness via thread state and a deterministic busy-spin watchdog, then timer, release and follow-up-transfer oracles.", "5/C07"),
- "C08": ("exploration", "Every traced source line of either job thread as a pre-emption point (3 durations) for 8 transfer shapes, differential against the un-pre-empted run; double pre-emptions sampled. Line-granular, not bytecode-granular.", "5/C08"),
- "C09": ("exploration", "Trace monitor over the time-stamped bus log of generated sessions (stack vs reference peer in both roles, stack vs stack): clearance per CTS, order, holds, BAM and connection-mode pacing (also with further broadcast sessions of the same stack running at once and frame writes that take time), grant bounds.", "5/C09"),
+ "C08": ("exploration", "Every traced source line of either job thread as a pre-emption point (3 durations) for 14 transfer shapes (originating and receiving role, incl. an abandoned broadcast whose time-out coincides with the next announcement), differential against the un-pre-empted run; double pre-emptions sampled. Line-granular, not bytecode-granular.", "5/C08"),
+ "C09": ("exploration", "Trace monitor over the time-stamped bus log of generated sessions (stack vs reference peer in both roles, stack vs stack): clearance per CTS, order, holds, BAM and connection-mode pacing (also with further broadcast sessions of the same stack running at once, frame writes that take time or wait a varying time before the bus, another ECU object configured earlier in the process), grant bounds incl. an enumeration of their boundaries.", "5/C09"),
  "C10": ("exploration", "Model-based testing of transfer histories with injected fates (incl. a responder that times out itself while the stack's own time-out abort is being written) and inbound sessions on arbitrary session numbers against a reference capacity model, then a full-concurrency probe that must be accepted and delivered and one more call that must be refused without a frame.", "5/C10"),
  "C11": ("exploration", "Generated send_pgn sequences (packing boundaries, time limits, FEFF/FBFF, app/timer context, frame writes that take time; plus schedule sweeps in which the calling application thread is held at every traced source line inside the stack) with an independent multi-PG reference unpacker over every emitted frame, delivery multiset per listener, and a deadline monitor.", "5/C11"),
- "C12": ("exploration", "Generated operation histories executed on the real ECU job thread under a virtual-time kernel and compared with a reference timer model: call windows per registration, no drift, no call after removal or unsubscription, no missing call; operations from inside timer and subscriber callbacks, callbacks that take time, deliveries in flight; includes exact deadline/clock coincidences.", "5/C12"),
- "C13": ("exploration", "Generated claim histories (start, waits around the veto window, contending claims) interleaved with send attempts through every entry point; oracle = known loss events + public CA state at each call, a trace monitor over every emitted frame, and liveness of the background thread under services built on the send calls (DM1 cycle).", "5/C13"),
- "C14": ("exploration", "Generated responder configurations in every claim state with an exhaustive sweep over all 256 destinations for boundary/random PGNs incl. the address-claim PGN; reference dispatch (every registered request callback exactly once on owning operational CAs - also when one unsubscribes itself -, claim answers, request encoding).", "5/C14"),
+ "C12": ("exploration", "Generated operation histories executed on the real ECU job thread under a virtual-time kernel and compared with a reference timer model: call windows per registration, no drift, no call after removal or unsubscription, no missing call; operations from inside timer and subscriber callbacks, callbacks that take time, deliveries in flight; the ECU's, a CA's and the request stream's subscribe/unsubscribe pairs; includes exact deadline/clock coincidences.", "5/C12"),
+ "C13": ("exploration", "Generated claim histories (start, waits around the veto window, contending claims) interleaved with send attempts through every entry point; write durations in every context, address losses aligned with timer ticks, slow DM1 data callbacks and the initial claim's write; oracle = loss events by bus order + public CA state at each call, a trace monitor over every emitted frame, and liveness of the background thread under services built on the send calls (DM1 cycle).", "5/C13"),
+ "C14": ("exploration", "Generated responder configurations in every claim state with an exhaustive sweep over all 256 destinations for boundary/random PGNs incl. the address-claim PGN; reference dispatch (every registered request callback exactly once on owning operational CAs - also when one unsubscribes itself or a CA is removed during the dispatch -, claim answers, request encoding).", "5/C14"),
  "C15": ("exploration", "PGN space (2^18) enumerated in both tiers, identifier space (2^29) enumerated in the thorough tier (stride sample + boundaries in quick), NAME space covered by exhaustive per-field sweeps, single bits, boundary tuples and Hypothesis draws (constructor and setter paths), plus the arbitration decision of a real CA for NAME pairs incl. contender frames with the reserved bit set, all against an independent reference codec.", "5/C15"),
- "C16": ("exploration", "DTC (all 2^19 SPN), lamp (all 5^4) and DM22 codecs enumerated against the J1939-73 bit layout; generated end-to-end DM1 histories (1..400 codes, single frame / BAM / FD multi-PG / FD BAM, several cycles incl. cycles shorter than the transfer, the data callback asked every cycle, a sending object that also subscribes while a foreign node sends DM1, stop_send from the application and from inside the callback, then silence) on both layers.", "5/C16"),
+ "C16": ("exploration", "DTC (all 2^19 SPN), lamp (all 5^4) and DM22 codecs enumerated against the J1939-73 bit layout; generated end-to-end DM1 histories (1..400 codes, single frame / BAM / FD multi-PG / FD BAM, several cycles incl. cycles shorter than the transfer, the data callback asked every cycle, a sending object that also subscribes while a foreign node sends DM1, application-owned dicts updated in place, post-processing and one-shot subscribers, stop_send from the application and from inside the callback, then silence) on both layers.", "5/C16"),
  "C17": ("exploration", "Generated DM14 read/write transactions (1..255 bytes, object sizes 1/2/4/8, raw/converted, signed/unsigned, seed/key on/off, back to back) between two real stacks with blocking application threads in virtual time and client-side frame writes that take time, judged by a reference memory model, proceed-callback arguments and idleness afterwards.", "5/C17"),
- "C18": ("exploration", "Generated histories of DM14 operations with failure fates (wrong key, refusal by the proceed callback, respond(False) with every J1939 error code, absent server) judged by: callbacks only after the matching key (bus trace), exception text and timing, and success of the next well-formed operation.", "5/C18"),
- "C19": ("fault_enumeration", "An intruding DM14 (other source address, or the requester's own address with another pointer; once or three times) injected after every bus frame of every transaction shape, differential against the undisturbed run: callbacks, client result, respond() result, completion, and 'the only answer is a failed DM15 with error indicator busy to the sender'.", "5/C19"),
+ "C18": ("exploration", "Generated histories of DM14 operations with failure fates (wrong key, refusal by the proceed callback, respond(False) with every J1939 error code, a device failing after 'proceed', an answer at the last moment of the caller's timeout, absent server) judged by: callbacks only after the matching key (bus trace), exception text and timing, and success of the next well-formed operation.", "5/C18"),
+ "C19": ("fault_enumeration", "An intruding DM14 (other source address, or the requester's own address with another pointer; once or three times) injected after every bus frame of every transaction shape (and during a query of the serving CA's own after a change of roles), differential against the undisturbed run: callbacks, client result, respond() result, completion, and 'the only answer is a failed DM15 with error indicator busy to the sender'.", "5/C19"),
 }
 
 
